@@ -37,6 +37,8 @@ func c05Gen(r *driver.Rand, thorough bool) *driver.Plan {
 	genEnvPaces(r, p, 1, 3)
 	if r.Chance(1, 8) {
 		p.SetX("uses", 2) // the stage is used twice in a row in one run
+	} else if r.Chance(1, 6) {
+		p.SetX("late_build", 1+r.Intn(12)) // the producer is running before the stage exists
 	}
 	// a stage that ends before its input does (Take after n elements,
 	// TakeWhile at the first rejected element) closes its output then, not when
